@@ -2,6 +2,7 @@ package props
 
 import (
 	"go/token"
+	"go/types"
 
 	"golang.org/x/tools/go/ssa"
 
@@ -33,9 +34,56 @@ func runC16(e *Env) {
 		e.Fn("C16.append", "uu", "DefaultFormatter"),
 		e.Fn("C16.append", "internal", "Bprintf"),
 	)
+	// "for every value type, formatting into a caller-supplied buffer": besides the formatters, every exported function
+	// or method of a value package that takes a []byte and hands a []byte back is such an entry point (an AppendText
+	// added next to MarshalText, say) and is held to the same two rules
+	type appender struct {
+		fn *ssa.Function
+		pi int
+	}
+	var more []appender
+	known := map[*ssa.Function]bool{}
+	for _, f := range fs {
+		known[f] = true
+	}
+	isBytes := func(t types.Type) bool {
+		s, ok := t.Underlying().(*types.Slice)
+		if !ok {
+			return false
+		}
+		b, ok := s.Elem().Underlying().(*types.Basic)
+		return ok && b.Kind() == types.Uint8
+	}
+	for _, f := range e.PkgFuncs(ValuePkgs...) {
+		if known[f] || f.Object() == nil || !f.Object().Exported() || f.Signature.Results().Len() == 0 || !isBytes(f.Signature.Results().At(0).Type()) {
+			continue
+		}
+		if recv := f.Signature.Recv(); recv != nil {
+			t := recv.Type()
+			if p, ok := t.(*types.Pointer); ok {
+				t = p.Elem()
+			}
+			if n, ok := t.(*types.Named); !ok || !n.Obj().Exported() {
+				continue
+			}
+		}
+		for i, p := range f.Params {
+			if f.Signature.Recv() != nil && i == 0 {
+				continue
+			}
+			if isBytes(p.Type()) {
+				more = append(more, appender{f, i})
+				break
+			}
+		}
+	}
 	e.Flow(func(c *flow.Ctx) {
 		c.RuleAppendOnly(fs...)
 		c.RuleBufIndependent(fs...)
+		for _, a := range more {
+			c.RuleAppendOnlyAt(a.fn, a.pi)
+			c.RuleBufIndependentAt(a.fn, a.pi)
+		}
 	})
 	e.S.Floor("C16.append", 6)
 	e.S.Floor("C16.indep", 6)
